@@ -452,7 +452,7 @@ pub fn strategy() -> impl Strategy<Value = Case> {
 }
 
 pub fn run_check(ctx: &mut Ctx) {
-    ctx.rule = "error-free generator programs as for C16 (shadowed names, dotted and `super` paths, macros and parameters, loops, untaken branches, string interpolation) x one identifier occurrence (definition site or any path component of a use) x a fresh new name; oracle: where prepareRename offers a rename, the WorkspaceEdit must edit exactly the occurrences the documented scoping binds to that symbol (uses in never-emitted code optional; nothing else - not `super`, not equally named symbols), the edited program must assemble to identical bytes and diagnostics, and renaming back at the definition must restore the original text. non-trivial = symbol with >= 2 occurrences. second campaign: two-file projects (main imports lib with `*`, `* as ns` or a specific list; constant and label of lib used in both files at varying, sometimes identical, positions): the edits must be exactly the whole-word occurrences of the name in both files and the renamed project must build identically".into();
+    ctx.rule = "error-free generator programs as for C16 (shadowed names, dotted and `super` paths, macros and parameters, loops, untaken branches, string interpolation, tests that refer to the program's symbols, comments with non-BMP characters between the tokens, a forward reference to a shadowing label right in front of the zero page boundary) x one identifier occurrence (definition site or any path component of a use) x a fresh new name; oracle: where prepareRename offers a rename, the WorkspaceEdit must edit exactly the occurrences the documented scoping binds to that symbol (uses in never-emitted code optional; nothing else - not `super`, not equally named symbols), the edited program must assemble to identical bytes and diagnostics, and renaming back at the definition must restore the original text. non-trivial = symbol with >= 2 occurrences. second campaign: two-file projects (main imports lib with `*`, `* as ns` or a specific list; constant and label of lib used in both files at varying, sometimes identical, positions): the edits must be exactly the whole-word occurrences of the name in both files and the renamed project must build identically".into();
     if !have_mos() {
         ctx.health(false, "mos binary not built (MOS_BIN)");
         return;
